@@ -81,6 +81,37 @@ type State struct {
 	obs     []obsEntry        // vObserve log
 	panicking *panicInfo      // non-nil while unwinding a Go panic
 	clock   *Term             // model of time.Now (seconds), non-decreasing
+	facts   map[int]*Term     // term id -> constant it is known to equal on this path
+	factsShared bool
+	ubs       map[int]uint64 // term id -> known unsigned upper bound on this path
+	ubsShared bool
+}
+
+func (s *State) setUB(t *Term, v uint64) {
+	if old, ok := s.ubs[t.id]; ok && old <= v {
+		return
+	}
+	if s.ubsShared || s.ubs == nil {
+		n := make(map[int]uint64, len(s.ubs)+4)
+		for k, x := range s.ubs {
+			n[k] = x
+		}
+		s.ubs = n
+		s.ubsShared = false
+	}
+	s.ubs[t.id] = v
+}
+
+func (s *State) setFact(t, v *Term) {
+	if s.factsShared || s.facts == nil {
+		n := make(map[int]*Term, len(s.facts)+4)
+		for k, x := range s.facts {
+			n[k] = x
+		}
+		s.facts = n
+		s.factsShared = false
+	}
+	s.facts[t.id] = v
 }
 
 func newState() *State {
@@ -120,6 +151,12 @@ func (s *State) fork() *State {
 	c.obs = append([]obsEntry(nil), s.obs...)
 	c.panicking = s.panicking
 	c.clock = s.clock
+	c.facts = s.facts
+	c.factsShared = true
+	s.factsShared = true
+	c.ubs = s.ubs
+	c.ubsShared = true
+	s.ubsShared = true
 	return c
 }
 
